@@ -53,6 +53,18 @@ type idx struct {
 	Vec int    `json:"vec"`
 	SC  bool   `json:"sc"`
 	IR  bool   `json:"ir"`
+	Lit string `json:"lit"` // spelling: dec | hex | lead0; for cfold the expression: trunc | zext | add | sub
+}
+
+// lit spells the integer literal v of an index as the index record says.
+func (ix idx) lit(v int) string {
+	switch ix.Lit {
+	case "hex":
+		return fmt.Sprintf("u0x%X", v)
+	case "lead0":
+		return fmt.Sprintf("00%d", v)
+	}
+	return fmt.Sprint(v)
 }
 
 type gcase struct {
@@ -114,7 +126,20 @@ func (ix idx) text(k int) string {
 		if ix.W == 1 {
 			v = map[int]string{0: "false", 1: "true"}[ix.Val]
 		} else {
-			v = fmt.Sprint(ix.Val)
+			v = ix.lit(ix.Val)
+		}
+	case "cfold":
+		switch ix.Lit {
+		case "trunc":
+			v = fmt.Sprintf("trunc (i64 %d to %s)", ix.Val, el)
+		case "zext":
+			v = fmt.Sprintf("zext (i16 %d to %s)", ix.Val, el)
+		case "add":
+			v = fmt.Sprintf("add (%s %d, %s 0)", el, ix.Val, el)
+		case "sub":
+			v = fmt.Sprintf("sub (%s %d, %s 1)", el, ix.Val+1, el)
+		default:
+			panic("cfold expression " + ix.Lit)
 		}
 	case "zeroinit":
 		v = "zeroinitializer"
@@ -123,7 +148,11 @@ func (ix idx) text(k int) string {
 	case "splat":
 		var es []string
 		for i := 0; i < ix.Vec; i++ {
-			es = append(es, fmt.Sprintf("%s %d", el, ix.Val))
+			if i == 0 {
+				es = append(es, el+" "+ix.lit(ix.Val)) // the first element carries the spelling
+			} else {
+				es = append(es, fmt.Sprintf("%s %d", el, ix.Val))
+			}
 		}
 		v = "<" + strings.Join(es, ", ") + ">"
 	case "nonsplat":
@@ -366,7 +395,21 @@ func (e *env) objectsWith(b *tyutil.Builder, c *gcase) *objects {
 		var cst constant.Constant
 		switch ix.F {
 		case "int":
-			cst = constant.NewInt(it, int64(ix.Val))
+			cst = intConst(it, ix, ix.Val)
+		case "cfold":
+			v := int64(ix.Val)
+			switch ix.Lit {
+			case "trunc":
+				cst = constant.NewTrunc(constant.NewInt(types.I64, v), it)
+			case "zext":
+				cst = constant.NewZExt(constant.NewInt(types.I16, v), it)
+			case "add":
+				cst = constant.NewAdd(constant.NewInt(it, v), constant.NewInt(it, 0))
+			case "sub":
+				cst = constant.NewSub(constant.NewInt(it, v+1), constant.NewInt(it, 1))
+			default:
+				panic("cfold expression " + ix.Lit)
+			}
 		case "zeroinit":
 			cst = constant.NewZeroInitializer(ty)
 		case "undef":
@@ -376,11 +419,14 @@ func (e *env) objectsWith(b *tyutil.Builder, c *gcase) *objects {
 		case "splat", "nonsplat":
 			var es []constant.Constant
 			for n := 0; n < ix.Vec; n++ {
-				v := int64(ix.Val)
-				if ix.F == "nonsplat" {
-					v = int64(n)
+				switch {
+				case ix.F == "nonsplat":
+					es = append(es, constant.NewInt(it, int64(n)))
+				case n == 0:
+					es = append(es, intConst(it, ix, ix.Val))
+				default:
+					es = append(es, constant.NewInt(it, int64(ix.Val)))
 				}
-				es = append(es, constant.NewInt(it, v))
 			}
 			cst = constant.NewVector(ty.(*types.VectorType), es...)
 		case "elemundef":
@@ -418,7 +464,7 @@ func (e *env) objectsWith(b *tyutil.Builder, c *gcase) *objects {
 		// what a correct classifier hands to the walker (the index record has no scalability)
 		gi := verifshim.GepIndex{VectorLen: uint64(ix.Vec)}
 		switch ix.F {
-		case "int", "splat":
+		case "int", "splat", "cfold":
 			gi.HasVal, gi.Val = true, int64(ix.Val)
 		case "zeroinit":
 			gi.HasVal, gi.Val = true, 0
@@ -430,6 +476,18 @@ func (e *env) objectsWith(b *tyutil.Builder, c *gcase) *objects {
 		o.shimIx = append(o.shimIx, gi)
 	}
 	return o
+}
+
+// intConst builds the integer constant v from the spelling the index record asks for.
+func intConst(it *types.IntType, ix idx, v int) constant.Constant {
+	if ix.Lit == "hex" || ix.Lit == "lead0" {
+		c, err := constant.NewIntFromString(it, ix.lit(v))
+		if err != nil {
+			panic(fmt.Sprintf("constant.NewIntFromString(%v, %q): %v", it, ix.lit(v), err))
+		}
+		return c
+	}
+	return constant.NewInt(it, int64(v))
 }
 
 func firstInst(m *ir.Module) (ir.Instruction, error) {
@@ -759,7 +817,14 @@ func baseShape(b *tyutil.Term) string {
 }
 
 func idxShape(ix idx) string {
-	s := ix.F + ":" + ix.typ().Abstract()
+	f := ix.F
+	if ix.F != "cfold" && ix.Lit != "" && ix.Lit != "dec" {
+		f += "(" + ix.Lit + ")"
+	}
+	if ix.F == "int" && ix.Val < 0 {
+		f += "(negative)"
+	}
+	s := f + ":" + ix.typ().Abstract()
 	if ix.IR {
 		s = "inrange " + s
 	}
@@ -805,7 +870,7 @@ func (e *env) shape(c *gcase) string {
 	for _, ix := range c.Idxs {
 		s := idxShape(ix)
 		all = append(all, s)
-		if (ix.F != "int" || ix.IR) && !seen[s] {
+		if (!strings.HasPrefix(s, "int:") || ix.IR) && !seen[s] {
 			seen[s] = true
 			special = append(special, s)
 		}
@@ -849,7 +914,7 @@ func neighbours(c *gcase) []*gcase {
 		n.Idxs = append(append([]idx{}, c.Idxs[:k]...), c.Idxs[k+1:]...)
 		out = append(out, &n)
 	}
-	plain := []idx{{F: "int", W: 64, Val: 0}, {F: "int", W: 32, Val: 0}, {F: "int", W: 32, Val: 1}}
+	plain := []idx{{F: "int", W: 64, Val: 0, Lit: "dec"}, {F: "int", W: 32, Val: 0, Lit: "dec"}, {F: "int", W: 32, Val: 1, Lit: "dec"}}
 	for k := len(c.Idxs) - 1; k >= 0; k-- {
 		repl := func(p idx) {
 			n := *c
